@@ -11,7 +11,9 @@ package quic
 // stream.go, send_stream.go, receive_stream.go, streams_map*.go and the flow controllers are
 // rebuilt against the channel-based mutex of mc/lib/vsync; every Lock and every Unlock is a
 // scheduler point; every schedule of the thread mixes below with at most two (thorough: three)
-// preemptions is executed. Oracle: when no thread can take a step any more, no call is still
+// preemptions is executed. Each mix runs on a fresh streams map and on one that went through a
+// rejected 0-RTT first (ResetFor0RTT + UseResetMaps: the maps the connection finally closes are
+// not the ones it was created with); three more mixes race the rejection itself. Oracle: when no thread can take a step any more, no call is still
 // blocked, and calls that return after the close report an error rather than success.
 
 import (
@@ -36,24 +38,48 @@ type c17e3sVariant struct {
 	Name    string
 	Setup   string // uni-fin | uni-nofin | bidi-fin-sendacked | bidi-fin | none
 	Threads [][]string
+	// Hist0RTT: the streams map has been through a rejected 0-RTT before anything else happens
+	// (ResetFor0RTT by the run loop, UseResetMaps by the application's NextConnection), as on a
+	// client connection that was dialed early, had its early data refused and is used normally since
+	Hist0RTT bool
 }
 
 // steps: close (streamsMap.CloseWithError, as the run loop does) | readall | read1 (one Read of the whole
 // stream: returns the data together with, or followed by, EOF) | cancelread | write (blocks: nothing packs) |
 // accept | acceptuni | opensync (blocked by the peer's stream limit 0) | ackfin (the FIN is acknowledged) |
-// rst (RESET_STREAM) | fin (FIN frame arrives)
-var c17e3sVariants = []c17e3sVariant{
-	{"uni:readall|close", "uni-fin", [][]string{{"readall"}, {"close"}}},
-	{"uni:cancelread|close", "uni-fin", [][]string{{"cancelread"}, {"close"}}},
-	{"uni:blocked-read|fin-close", "uni-nofin", [][]string{{"readall"}, {"fin", "close"}}},
-	{"uni:blocked-read|close", "uni-nofin", [][]string{{"readall"}, {"close"}}},
-	{"uni:cancelread|rst-close", "uni-nofin", [][]string{{"cancelread"}, {"rst", "close"}}},
-	{"bidi:readall|close", "bidi-fin-sendacked", [][]string{{"readall"}, {"close"}}},
-	{"bidi:readall|ackfin-close", "bidi-fin", [][]string{{"readall"}, {"ackfin", "close"}}},
-	{"bidi:write|readall|close", "bidi-fin", [][]string{{"write"}, {"readall"}, {"close"}}},
-	{"accept|acceptuni|close", "none", [][]string{{"accept"}, {"acceptuni"}, {"close"}}},
-	{"opensync|close", "none", [][]string{{"opensync"}, {"close"}}},
-	{"uni:readall|readall2|close", "uni-fin", [][]string{{"readall"}, {"acceptuni"}, {"close"}}},
+// rst (RESET_STREAM) | fin (FIN frame arrives) | reset0rtt (the run loop drops the 0-RTT keys: ResetFor0RTT) |
+// usereset (the application's NextConnection: UseResetMaps) | accept2 / opensync2 (= accept / opensync, a
+// second call of the same thread)
+var c17e3sVariants = c17e3sAllVariants()
+
+// every thread mix on a fresh streams map and on one that has been through a rejected 0-RTT, plus
+// the rejection itself racing the application: a call blocked in the maps that are being replaced,
+// NextConnection, the same call again on the new maps, and the run loop closing the connection
+func c17e3sAllVariants() []c17e3sVariant {
+	out := append([]c17e3sVariant{}, c17e3sBaseVariants...)
+	for _, v := range c17e3sBaseVariants {
+		v.Name, v.Hist0RTT = "after-0rtt-rejection/"+v.Name, true
+		out = append(out, v)
+	}
+	return append(out,
+		c17e3sVariant{Name: "accept-usereset-accept|reset0rtt-close", Setup: "none", Threads: [][]string{{"accept", "usereset", "accept2"}, {"reset0rtt", "close"}}},
+		c17e3sVariant{Name: "opensync-usereset-opensync|reset0rtt-close", Setup: "none", Threads: [][]string{{"opensync", "usereset", "opensync2"}, {"reset0rtt", "close"}}},
+		c17e3sVariant{Name: "uni:blocked-read-usereset-acceptuni|reset0rtt-close", Setup: "uni-nofin", Threads: [][]string{{"readall", "usereset", "acceptuni"}, {"reset0rtt", "close"}}},
+	)
+}
+
+var c17e3sBaseVariants = []c17e3sVariant{
+	{Name: "uni:readall|close", Setup: "uni-fin", Threads: [][]string{{"readall"}, {"close"}}},
+	{Name: "uni:cancelread|close", Setup: "uni-fin", Threads: [][]string{{"cancelread"}, {"close"}}},
+	{Name: "uni:blocked-read|fin-close", Setup: "uni-nofin", Threads: [][]string{{"readall"}, {"fin", "close"}}},
+	{Name: "uni:blocked-read|close", Setup: "uni-nofin", Threads: [][]string{{"readall"}, {"close"}}},
+	{Name: "uni:cancelread|rst-close", Setup: "uni-nofin", Threads: [][]string{{"cancelread"}, {"rst", "close"}}},
+	{Name: "bidi:readall|close", Setup: "bidi-fin-sendacked", Threads: [][]string{{"readall"}, {"close"}}},
+	{Name: "bidi:readall|ackfin-close", Setup: "bidi-fin", Threads: [][]string{{"readall"}, {"ackfin", "close"}}},
+	{Name: "bidi:write|readall|close", Setup: "bidi-fin", Threads: [][]string{{"write"}, {"readall"}, {"close"}}},
+	{Name: "accept|acceptuni|close", Setup: "none", Threads: [][]string{{"accept"}, {"acceptuni"}, {"close"}}},
+	{Name: "opensync|close", Setup: "none", Threads: [][]string{{"opensync"}, {"close"}}},
+	{Name: "uni:readall|readall2|close", Setup: "uni-fin", Threads: [][]string{{"readall"}, {"acceptuni"}, {"close"}}},
 }
 
 type c17e3sReplay struct {
@@ -84,6 +110,10 @@ func c17e3sScenario(v c17e3sVariant) func() *sched.Scenario {
 				return flowcontrol.NewStreamFlowController(id, cfc, 1<<20, 1<<20, 1<<20, rtt, utils.DefaultLogger)
 			}, 4, 4, protocol.PerspectiveClient)
 		snd.sm = sm
+		if v.Hist0RTT {
+			sm.ResetFor0RTT()
+			sm.UseResetMaps()
+		}
 		now := monotime.Now()
 		ctx := context.Background()
 		var rd io.Reader
@@ -135,11 +165,15 @@ func c17e3sScenario(v c17e3sVariant) func() *sched.Scenario {
 					f = cancelRead
 				case "write":
 					f = func() { _, err := bidi.Write(make([]byte, 3000)); results[key] = err }
-				case "accept":
+				case "accept", "accept2":
 					f = func() { _, err := sm.AcceptStream(ctx); results[key] = err }
+				case "reset0rtt":
+					f = sm.ResetFor0RTT
+				case "usereset":
+					f = sm.UseResetMaps
 				case "acceptuni":
 					f = func() { _, err := sm.AcceptUniStream(ctx); results[key] = err }
-				case "opensync":
+				case "opensync", "opensync2":
 					f = func() { _, err := sm.OpenStreamSync(ctx); results[key] = err }
 				case "ackfin":
 					f = finFrame
@@ -242,7 +276,7 @@ func TestVerifC17E3S(t *testing.T) {
 			rep.OutcomesN = int64(len(rep.Outcomes))
 			rep.States = rep.OutcomesN
 			rep.Traces = rep.Transitions
-			rep.Rule = fmt.Sprintf("%d thread mixes on a real client-side streamsMap with real peer-initiated streams: streamsMap.CloseWithError (the run loop ending the connection, also right after a FIN / RESET_STREAM / acknowledgement) against application calls (Read to the end, a Read that waits, CancelRead, Write, AcceptStream, AcceptUniStream, OpenStreamSync); every mutex Lock and Unlock of stream.go, send_stream.go, receive_stream.go, streams_map*.go and internal/flowcontrol is a scheduler point (files import-rewritten to vsync from the working tree): every schedule with at most %d preemptions", len(c17e3sVariants), bound)
+			rep.Rule = fmt.Sprintf("%d thread mixes on a real client-side streamsMap with real peer-initiated streams: streamsMap.CloseWithError (the run loop ending the connection, also right after a FIN / RESET_STREAM / acknowledgement) against application calls (Read to the end, a Read that waits, CancelRead, Write, AcceptStream, AcceptUniStream, OpenStreamSync), each mix on a fresh streams map and on one that has been through a rejected 0-RTT (ResetFor0RTT, UseResetMaps) before, plus the rejection itself (ResetFor0RTT in the run loop, then the close) racing a blocked call, NextConnection and the same call again; every mutex Lock and Unlock of stream.go, send_stream.go, receive_stream.go, streams_map*.go and internal/flowcontrol is a scheduler point (files import-rewritten to vsync from the working tree): every schedule with at most %d preemptions", len(c17e3sVariants), bound)
 			rep.Bound = fmt.Sprintf("preemption bound %d completed", bound)
 			return rep
 		},
